@@ -664,6 +664,20 @@ def search_C10_C19(pid, budget):
             fail(pid, "reader", "AudioReader(block_dur=%d.5/%d, hop_dur=%d.5/%d): reports block_size=%r hop_size=%r block_dur=%r hop_dur=%r, "
                  "the blocks it returns have %d samples and advance by %d" % (nb, sr_, nh, sr_, rep[0], rep[1], rr.block_dur, rr.hop_dur,
                                                                                real_block, real_hop))
+    # a long recording (thousands of blocks before the first rewind): every sample once, in order
+    for (nblk, hd) in ((5000, None), (9000, None), (4500, 0.002)):
+        n += 1
+        dlong = bytes((i * 7 + (i >> 8)) % 256 for i in range(nblk * 2 + 3))
+        rl = AudioReader(dlong, block_dur=0.002 if hd is None else 0.004, hop_dur=hd, record=True, sr=1000, sw=1, ch=1)
+        rl.open()
+        nread = 0
+        while rl.read() is not None:
+            nread += 1
+        rl.rewind()
+        if rl.data != dlong:
+            k_ = next((i for i in range(min(len(rl.data), len(dlong))) if rl.data[i] != dlong[i]), min(len(rl.data), len(dlong)))
+            fail(pid, "recorder-long", "recording of %d blocks: data has %d bytes, the source %d; first difference at byte %d" % (
+                nread, len(rl.data), len(dlong), k_))
     # the Recorder spelling honours max_read exactly like AudioReader(record=True)
     from auditok.util import Recorder
     dr = bytes((i * 5 + 3) % 256 for i in range(80))
